@@ -1295,7 +1295,7 @@ class EigenvalueCorrectedShampooPreconditionerList(
                             eigenvectors_estimate=factor_matrix_eigenvectors,
                             eigenvector_computation_config=eigenvector_computation_config,
                             is_diagonal=bool(is_factor_matrix_diagonal),
-                        )
+                        ).to(dtype=factor_matrix_eigenvectors.dtype)
                         # Add success to success tracker.
                         success_tracker.append(True)
                     except Exception as exception:
